@@ -18,7 +18,7 @@ if os.path.realpath(repo) == "/repo" and os.environ.get("VERIF_SELFTEST", "1") !
     seeded += ["refactors/" + os.path.basename(os.path.dirname(d)) for d in sorted(glob.glob(os.path.join(VERIF, "refactors/%s-*/patch.diff" % pid)))]
     import tempfile
     tmpj = tempfile.mktemp(suffix=".json", dir=os.path.join(VERIF, "out"))
-    r = subprocess.run([sys.executable, os.path.join(VERIF, "bin/selftest.py"), "--names", ",".join(names + seeded), "--jobs", "8", "--seeded", "--json", tmpj],
+    r = subprocess.run([sys.executable, os.path.join(VERIF, "bin/selftest.py"), "--names", ",".join(names + seeded), "--jobs", "12", "--seeded", "--json", tmpj, "--props", pid],
                        capture_output=True, text=True)
     results = {}
     for l in r.stdout.splitlines():
